@@ -55,7 +55,9 @@ Definition monitor (c : case) : list N :=
   match c with
   | CSeq cf bad ops res closed =>
       (* each token closed at most once *)
-      if forallb (fun t => Nat.leb (count_n t closed) 1) closed then [] else [3]
+      (if forallb (fun t => Nat.leb (count_n t closed) 1) closed then [] else [3]) ++
+      (* no connection that is unusable or past its idle lifetime is handed out *)
+      (if existsb (fun r => match r with RConn t => mem_b N.eqb t bad | _ => false end) res then [7] else [])
   | CConc log panics stuck =>
       mon_log log [] [] false ++ (if panics =? 0 then [] else [5]) ++ (if stuck then [6] else [])
   end.
